@@ -57,6 +57,7 @@ def check(run, repo, world):
     run.floor("declared memory values", len(values), 81)
     run.floor("declared memory banks", len(banks), 9)
     spec = json.load(open(os.path.join(VERIF, "spec", "memory_map.json")))
+    _check_mem_pure(run, repo, world)
     _check_map(run, repo, world, banks, values, spec)
     _check_struct(run, repo, world, banks, values)
     masks = _check_masks(run, repo, world, folder, values)
@@ -1042,3 +1043,32 @@ def _check_registration_guards(run, repo, world):
     run.ob("R-MAP-GUARD", LOC + ".MemoryBank._add_memory_value#overlap",
            oko, "an already occupied location must be refused (guard `%s`)"
            % " / ".join(unparse(t) for t in over), where(mod, fn))
+
+
+def _check_mem_pure(run, repo, world):
+    """R-MEM-PURE: what a memory value is decoded to is a function of the
+    bytes read: no method of the memory classes writes to state shared
+    between calls (a class-level memo, a module global); the registration
+    done by the metaclass aside."""
+    from ..seq import shared_state_writes
+    run.rule("R-MEM-PURE", "no method of the memory value / bank classes "
+             "writes to state shared between calls (class-level container, "
+             "module global); registration by the metaclass aside")
+    n = 0
+    for modname in sorted(repo.modules):
+        if not modname.startswith("dali.memory"):
+            continue
+        mod = repo.mod(modname)
+        for c in world.classes_in(modname):
+            if c.has_ext_base("type"):
+                continue
+            for name, (kind, f) in sorted(c.methods.items()):
+                n += 1
+                bad = shared_state_writes(world, c, f)
+                run.ob("R-MEM-PURE", "%s.%s" % (c.qname, name), not bad,
+                       "%s.%s writes to state shared between calls (%s): "
+                       "what one unit's bytes decode to then depends on "
+                       "what was decoded before" % (c.qname, name,
+                                                    "; ".join(bad[:3])),
+                       where(mod, f), trivial=True)
+    run.floor("memory class methods examined for shared writes", n, 30)
